@@ -120,6 +120,7 @@ fn parse_point_env(var: &str) -> Option<(String, String)> {
 pub(crate) fn fault_point(name: &str) -> crate::error::Result {
     static FAULT: OnceLock<Option<(String, String)>> = OnceLock::new();
     static FIRED: AtomicBool = AtomicBool::new(false);
+    crate::verif_ev!("Phase", "\"name\":\"{name}\"");
     pause_point(name);
     let Some((point, kind)) = FAULT
         .get_or_init(|| parse_point_env("WILD_VERIF_FAULT"))
@@ -148,7 +149,7 @@ pub(crate) fn fault_point(name: &str) -> crate::error::Result {
         }
         "oom" => {
             // The real thing: ask the global allocator for something it cannot provide.
-            let layout = std::alloc::Layout::from_size_align(usize::MAX / 2, 8).unwrap();
+            let layout = std::alloc::Layout::from_size_align(1 << 46, 8).unwrap();
             std::alloc::handle_alloc_error(layout);
         }
         _ => Ok(()),
